@@ -457,7 +457,7 @@ impl<'a> PGen<'a> {
                 22 => {
                     // a long list of non-integral numbers (order of floating-point additions,
                     // size thresholds of fast paths)
-                    let n = *self.rng.pick(&[64i64, 65, 100, 129, 200]);
+                    let n = *self.rng.pick(&[64i64, 65, 100, 129, 200, 257, 300]);
                     let f = match self.rng.below(3) {
                         0 => lam(&["x"], bin("+", bin("*", id("x"), numf("0.1")), numf("0.3"))),
                         1 => lam(&["x"], bin("/", id("x"), num(7))),
